@@ -4,6 +4,7 @@ from typing import Any, Callable, Optional, Sequence
 
 from ..buffer import Buffer, size_uint_var
 from ..tls import Epoch
+from .configuration import SMALLEST_MAX_DATAGRAM_SIZE
 from .crypto import CryptoPair
 from .logger import QuicLoggerTrace
 from .packet import (
@@ -164,9 +165,24 @@ class QuicPacketBuilder:
         """
         Starts a new frame.
         """
+        if self.packet_is_empty:
+            # the payload will be padded to the smallest size which allows header
+            # protection to be applied, make sure this padding fits too
+            capacity = max(capacity, PACKET_NUMBER_MAX_SIZE - PACKET_NUMBER_SEND_SIZE)
         if self.remaining_buffer_space < capacity or (
             frame_type not in NON_IN_FLIGHT_FRAME_TYPES
             and self.remaining_flight_space < capacity
+        ):
+            raise QuicPacketBuilderStop
+
+        # A datagram containing an Initial packet from a client, or an ack-eliciting
+        # Initial packet from a server, must be padded to 1200 bytes. If the
+        # datagram cannot be that large (anti-amplification limit), the frame
+        # cannot be sent yet.
+        if (
+            self._packet_type == QuicPacketType.INITIAL
+            and (self._is_client or frame_type not in NON_ACK_ELICITING_FRAME_TYPES)
+            and self._buffer_capacity < SMALLEST_MAX_DATAGRAM_SIZE
         ):
             raise QuicPacketBuilderStop
 
@@ -229,8 +245,16 @@ class QuicPacketBuilder:
         else:
             header_size = 3 + len(self._peer_cid)
 
-        # check we have enough space
-        if packet_start + header_size >= self._buffer_capacity:
+        # check we have enough space for the header, the smallest payload which
+        # allows header protection to be applied and the AEAD tag
+        if (
+            packet_start
+            + header_size
+            + PACKET_NUMBER_MAX_SIZE
+            - PACKET_NUMBER_SEND_SIZE
+            + crypto.aead_tag_size
+            > self._buffer_capacity
+        ):
             raise QuicPacketBuilderStop
 
         # determine ack epoch
@@ -286,8 +310,8 @@ class QuicPacketBuilder:
                 self._datagram_needs_padding
                 and self._packet_type == QuicPacketType.ONE_RTT
             ):
-                if self.remaining_flight_space > padding_size:
-                    padding_size = self.remaining_flight_space
+                if self.remaining_buffer_space > padding_size:
+                    padding_size = self.remaining_buffer_space
                 self._datagram_needs_padding = False
 
             # write padding
@@ -371,7 +395,9 @@ class QuicPacketBuilder:
             # Padding for datagrams containing initial packets; see RFC 9000
             # section 14.1.
             if self._datagram_needs_padding:
-                extra_bytes = self._flight_capacity - self._buffer.tell()
+                # The padding of a datagram containing an Initial packet is
+                # mandatory, it is not subject to the congestion window.
+                extra_bytes = self._buffer_capacity - self._buffer.tell()
                 if extra_bytes > 0:
                     self._buffer.push_bytes(bytes(extra_bytes))
                     self._datagram_flight_bytes += extra_bytes
